@@ -47,19 +47,28 @@ def main(replay=None):
     bdir, hb = ck.prepare(pf, "h_c02.cpp")
     hc.clean_axiom_accounting(ck)
     if hb is None: return ck.finish()
+    try:
+        _run(ck, hb, quick, replay)
+    except Exception as e:      # a check never dies: whatever went wrong inside is reported, with the traceback as replay
+        import traceback
+        ck.violation("check-internal", "the check itself failed (%r): treated as a broken tie, not as a verdict on the property" % (e,),
+                     dict(kind="internal", traceback=traceback.format_exc()[-4000:]), found_input=False)
+    return ck.finish()
+
+def _run(ck, hb, quick, replay):
     stats = {}
     if replay:
         hc.replay_any(ck, hb, json.load(open(replay)), "rescaled")
-        return ck.finish()
+        return
     # 1. kernel-level witnesses of the repaired threshold (replay of the pinned-form refutation on the real kernels)
     kw = load_corpus(); lines = []
     for label, op, ints, args, s in kw:
         lines.append(hc.kline(op, ints, [x for a in args for x in a]))
         lines.append(hc.kline(op, ints, [x * s for a in args for x in a]))
-    rc, outs, err = core.run_harness(hb, lines, ck.workdir, tag="kw")
+    outs = hc.kernel_outputs(hb, ck.workdir, lines, tag="kw")
     wres = []
     for n, (label, op, ints, args, s) in enumerate(kw):
-        z0, f0 = core.fparse(outs[2 * n]); z1, f1 = core.fparse(outs[2 * n + 1])
+        z0, f0 = hc.fparse_safe(outs[2 * n]); z1, f1 = hc.fparse_safe(outs[2 * n + 1])
         r = (-2, z0, z1) if (not z0 or not z1 or z0 != z1) else hc.kernel_compare(op, f0, f1, None, s, 1.0)
         wres.append(dict(witness=label, reference=f0, rescaled=f1, obeys_law=r is None))
         if r is not None:
@@ -82,6 +91,10 @@ def main(replay=None):
         trs.append((R, tuple(2 * c["R"] * s2 * x for x in d), s2, 1.0))
         items.append(("model %d (%s)" % (n, c["model"]["info"]["topology"]), c, trs))
     recs = hc.run_pairs(ck, hb, items, tol=1e-9, stats=stats)
+    # 2b. the conductivity law the way an API user sweeps conductivities: ONE Geometry object, Domain::set_conductivity(k*sigma)
+    #     in sequence, everything reassembled; against the law and against freshly loaded geometries (same harness process)
+    sw_items = [(lab + " [sweep]", c) for lab, c, _ in items[:(3 if quick else 10)]]
+    sw = hc.check_sigma_sweep(ck, hb, sw_items, stats=stats)
     # 3. kernels on rescaled arguments: decimal factors at rounding level, powers of two exactly (bitwise)
     def tr_dec(rng, size): return None, (0.0, 0.0, 0.0), rng.choice(SCALES + [math.exp(rng.uniform(math.log(1e-3), math.log(1e3)))])
     def tr_pow2(rng, size): return None, (0.0, 0.0, 0.0), 2.0 ** rng.choice([-10, -7, -3, -1, 1, 4, 7, 10])
@@ -99,6 +112,7 @@ def main(replay=None):
                   measured_rounding_level=stats.get("level", {}), laws={k_: v for k_, v in hc.LAWS.items() if v},
                   eit_law="radius 0 (unit current on one triangle): s^-1 k^-1; radius>0 (unit current density): s^+1 k^-1",
                   singular_pairs_compared_at_operator_level=stats.get("singular", 0), threshold_witnesses=wres,
+                  in_place_conductivity_sweep=dict(models=len(sw_items), factors=list(hc.SWEEP), steps=stats.get("sweep_steps", 0), level=stats.get("sweep_level", {})),
                   kernel_mismatches=kb1 + kb2, traces_validated_against_impl=len(recs) + nk)
     ck.cov["selfcheck_verdict_flips_not_raised"] = len(hc.SELFCHECK_FLIPS)   # see headcases.compare_decisions
     ck.cov["trusted_base"] += ["C++ harness harness/h_c02.cpp (whole pipeline in memory + direct kernel calls on the rebuilt working tree)",
@@ -106,4 +120,3 @@ def main(replay=None):
     ck.assumptions += ["rounding and conditioning are measured, not proved (tolerance 1e-9 relative Frobenius; measured level in coverage.measured_rounding_level)",
                        "the laws for EIT and surface-source gains (not named in the property text) are derived in design/C03.md and confirmed by the same runs",
                        "MathComp lift: the head matrix is assumed invertible (hypothesis of gain_*_scale); models with numerically singular head matrix are compared operator by operator"]
-    return ck.finish()
